@@ -2,6 +2,7 @@
 
 Everything random goes through Hypothesis' draw so that shrinking and seeding work.
 """
+import re
 from hypothesis import strategies as st
 from bv import ir
 from bv import expr as X
@@ -16,6 +17,8 @@ REGEXES = [
     (rb"\r\n", b"abc\r", [b"\r\n"], False),
     (rb'(?<![a-z]);', b"AB01 ,", [b";"], False),
     (rb"\bEND\b", b" .,-", [b"END"], False),
+    (rb"end", b" .,-AB", [b"end", b"END", b"eNd"], True, re.I),          # compiled with a flag
+    (rb"(?i)fin", b" .,-AB", [b"fin", b"FIN", b"Fin"], True),            # global inline flag inside the pattern
 ]
 BASE = {
     "max_pkts": 3, "max_fields": 6,
@@ -193,8 +196,9 @@ class PktGen:
             f["size"] = ["marker", d(st.sampled_from(MARKERS))]
             f["incl"] = chance(d, 0.4)
         else:
-            pat, _, _, multi = d(st.sampled_from(REGEXES))
-            f["size"] = ["regex", pat]
+            ent = d(st.sampled_from(REGEXES))
+            pat, multi = ent[0], ent[3]
+            f["size"] = ["regex", pat] + ([int(ent[4])] if len(ent) > 4 else [])
             f["incl"] = chance(d, 0.5)
             if not f["incl"]:
                 if not self.prof["regex_unkept"] or (multi and not self.prof["regex_multi_unkept"]) or (in_elem and multi):
